@@ -1,6 +1,6 @@
 /-
   UnytModel.Ops.C05 — opcodes of the C05 model (prefix `c05.`): the control flow of `Unit.__mul__`,
-  `__truediv__`, `__pow__` REGENERATED from the live source (`Generated.C05Paths`, translator plugin
+  `__truediv__`, `__pow__`, `__eq__` REGENERATED from the live source (`Generated.C05Paths`, translator plugin
   tools/extract.d/c05_paths.py) and run by the interpreter `UnitPaths.evalPaths` on explicit unit values
   (stored scale, offset, dimension, expression).  Opaque conditions (ones the translator has no reading for)
   are taken as false.  `UnytProofs/C05Paths.lean` proves these programs equal to `UnitV.mul/div/powSrc`.
@@ -25,6 +25,13 @@ def stepC05 (st : DriverState) (fields : List String) : Option (DriverState × S
   | ["c05.upow", s1, o1, d1, c1, f1, p] =>
     match parseUnitV s1 o1 d1 c1 f1, parseRat p with
     | some u, some q => some (st, exceptOut unitOut (evalPaths (fun _ => false) u u q Generated.C05Paths.powPaths))
+    | _, _ => none
+  | ["c05.ueq", s1, o1, d1, c1, f1, s2, o2, d2, c2, f2] =>
+    match parseUnitV s1 o1 d1 c1 f1, parseUnitV s2 o2 d2 c2 f2 with
+    | some u, some v =>
+      match evalBoolPaths Float.isclose (fun _ => false) u v Generated.C05Paths.eqPaths with
+      | some b => some (st, s!"ok\t{if b then 1 else 0}")
+      | none => some (st, "err\tOther")
     | _, _ => none
   | ["c05.npaths"] =>
     some (st, s!"ok\t{Generated.C05Paths.mulPaths.length}\t{Generated.C05Paths.truedivPaths.length}\t{Generated.C05Paths.powPaths.length}")
